@@ -36,7 +36,9 @@ def term_of(av: AV) -> str:
     if av is None:
         return "?"
     if av.kind == "const":
-        return repr(av.val)
+        r = repr(av.val)
+        STRUCT.setdefault(r, ("const", av.val))
+        return r
     if av.sym:
         return av.sym
     if av.kind == "tuple":
@@ -54,8 +56,18 @@ def is_opaque(term: str) -> bool:
     return "call:" in term or "?" in term
 
 
+STRUCT: dict = {}  # term string -> (op, args) for terms built by T(); ("const", value) for constants
+
+
 def T(op, *args) -> str:
-    return f"{op}(" + ",".join(args) + ")"
+    t = f"{op}(" + ",".join(args) + ")"
+    STRUCT.setdefault(t, (op, tuple(args)))
+    return t
+
+
+def destruct(t):
+    """(op, args) of a term built by T(), ("const", value) for a constant, (None, ()) for an atom."""
+    return STRUCT.get(t, (None, ()))
 
 
 def tv(term, **kw) -> AV:
@@ -142,8 +154,70 @@ class TermRule(BaseRule):
             return tv(T("slice", b, *[("" if (p.kind == "const" and p.val is None) else term_of(p)) for p in (lo, hi, step)]), none=False)
         return tv(T("idx", b, term_of(parts[0])))
 
+    # ---- one symbolic iteration per loop (the element is `each(<iterable>)`); appends made inside are marked as repeated
+    def for_iter(self, it, st, stmt, itv):
+        if (itv.kind == "tuple" and not itv.val) or (itv.kind == "const" and not itv.val):
+            return [(st.copy(), False)]
+        I = term_of(itv)
+        key = ("iterated", I, stmt.lineno)
+        if st.ts.get(key):
+            s = st.copy()
+            s.ts["loops"] = tuple(x for x in s.ts.get("loops", ()) if x != I)
+            return [(s, False)]
+        s = st.copy()
+        s.ts[key] = True
+        s.ts["loops"] = s.ts.get("loops", ()) + (I,)
+        if isinstance(stmt.target, (ast.Tuple, ast.List)):
+            n = len(stmt.target.elts)
+            it.assign(s, stmt.target, AV("tuple", tuple(tv(f"each{i}({I})", none=False) for i in range(n)), truth=True, none=False))
+        else:
+            it.assign(s, stmt.target, tv(T("each", I), none=False))
+        return [(s, True), (st.copy(), False)]
+
+    def comprehension(self, it, st, node):
+        if isinstance(node, (ast.GeneratorExp, ast.ListComp, ast.SetComp)) and len(node.generators) == 1:
+            g = node.generators[0]
+            vals, raises = it.eval(st, g.iter)
+            if len(vals) != 1:
+                return None
+            s0, itv = vals[0]
+            I = term_of(itv)
+            s = s0.copy()
+            it.assign(s, g.target, tv(T("each", I), none=False))
+            conds = []
+            for c in g.ifs:
+                cv, _ = it.eval(s, c)
+                conds.append(term_of(cv[0][1]) if len(cv) == 1 else "?")
+            ev_, _ = it.eval(s, node.elt)
+            if len(ev_) != 1:
+                return None
+            kind = {ast.GeneratorExp: "gen", ast.ListComp: "listcomp", ast.SetComp: "setcomp"}[type(node)]
+            return [(s0, tv(T(kind, term_of(ev_[0][1]), I, *conds), none=False))], list(raises)
+        return None
+
+    def _list_builder(self, it, st, node, recv, pos):
+        """append/extend/insert on a local list whose content is known: the variable is re-bound to the longer list term."""
+        f = node.func
+        if not (isinstance(f, ast.Attribute) and isinstance(f.value, ast.Name) and recv is not None and recv.sym and recv.sym.startswith("list(")):
+            return None
+        op, elts = destruct(recv.sym)
+        if op != "list" or f.attr not in ("append", "extend") or len(pos) != 1:
+            return None
+        loops = st.ts.get("loops", ())
+        x = term_of(pos[0])
+        if f.attr == "extend":
+            x = T("star", x)
+        if loops:
+            x = T("rep", x, *loops)  # appended once per iteration of the enclosing loop(s)
+        s = st.copy()
+        s.env[it.var(f.value.id)] = tv(T("list", *elts, x), none=False, truth=True)
+        return [Out("normal", s, const(None))]
+
     def call(self, it, st, node, recv, pos, kw):
         r = self.call_hook(it, st, node, recv, pos, kw)
+        if r is not None:
+            return r
+        r = self._list_builder(it, st, node, recv, pos)
         if r is not None:
             return r
         f = node.func
